@@ -291,7 +291,7 @@ theorem objectFields_spec (u : UInfo) (s : DcSchema) :
     ∃ names, fieldNames ((sortProps s.required s.props).map DcProp.key) = some names
       ∧ names.Nodup ∧ (sortProps s.required s.props).length = names.length
       ∧ objectFields u s = some (zipFields u s.required (sortProps s.required s.props) names) := by
-  obtain ⟨names, hfn, hnd, hlen⟩ := assignAll_map_spec sufUnderscore 2 sufUnderscore_inj sanMethod
+  obtain ⟨names, hfn, hnd, hlen⟩ := assignAll_map_spec sufUnderscore 2 sufUnderscore_inj dcFieldBase
     ((sortProps s.required s.props).map DcProp.key)
   have hfn' : fieldNames ((sortProps s.required s.props).map DcProp.key) = some names := hfn
   refine ⟨names, hfn', hnd, by simpa using hlen.symm, ?_⟩
